@@ -91,4 +91,61 @@ theorem mat_ext (zero : A) (M N : Mat A) (n : Nat) (hM : Square M n) (hN : Squar
 theorem length_triuOf (zero : A) (M : Mat A) (n : Nat) : ((triuPairs n).map fun p => entry zero M p.1 p.2).length = (triuPairs n).length := by
   simp
 
+theorem fullAt_triu (zero : A) (M : Mat A) (n i j : Nat) (hi : i < n) (hj : j < n) :
+    fullAt zero n ((triuPairs n).map fun p => entry zero M p.1 p.2) i j = if j < i then entry zero M j i else entry zero M i j := by
+  unfold fullAt
+  by_cases h : j < i
+  · rw [if_pos h, if_pos h, upperAt_map zero n _ j i ((mem_triuPairs n j i).mpr ⟨by omega, hi⟩)]
+  · rw [if_neg h, if_neg h, upperAt_map zero n _ i j ((mem_triuPairs n i j).mpr ⟨by omega, hj⟩)]
+
+/-- expanding the row-major upper triangle of a square `M` gives `M` back exactly when `M` is symmetric (every `n`) -/
+theorem fullOfTriu_triu_iff (zero : A) (M : Mat A) (n : Nat) (hM : Square M n) :
+    fullOfTriu zero n ((triuPairs n).map fun p => entry zero M p.1 p.2) = M ↔ Symm zero M n := by
+  constructor
+  · intro h i j hi hj
+    have e1 := entry_fullOfTriu zero n ((triuPairs n).map fun p => entry zero M p.1 p.2) i j hi hj
+    rw [h, fullAt_triu zero M n i j hi hj] at e1
+    by_cases hji : j < i
+    · rw [if_pos hji] at e1; exact e1
+    · have e2 := entry_fullOfTriu zero n ((triuPairs n).map fun p => entry zero M p.1 p.2) j i hj hi
+      rw [h, fullAt_triu zero M n j i hj hi] at e2
+      by_cases hij : i < j
+      · rw [if_pos hij] at e2; exact e2.symm
+      · have : i = j := by omega
+        subst this; rfl
+  · intro hs
+    apply mat_ext zero _ _ n (fullOfTriu_square zero n _) hM
+    intro i j hi hj
+    rw [entry_fullOfTriu zero n _ i j hi hj, fullAt_triu zero M n i j hi hj]
+    by_cases hji : j < i
+    · rw [if_pos hji]; exact (hs i j hi hj).symm
+    · rw [if_neg hji]
+
+/-- the expansion is always symmetric -/
+theorem fullOfTriu_symm (zero : A) (n : Nat) (arr : List A) : Symm zero (fullOfTriu zero n arr) n := by
+  intro i j hi hj
+  rw [entry_fullOfTriu zero n arr i j hi hj, entry_fullOfTriu zero n arr j i hj hi]
+  unfold fullAt
+  by_cases h1 : j < i
+  · have h2 : ¬ i < j := by omega
+    rw [if_pos h1, if_neg h2]
+  · by_cases h2 : i < j
+    · rw [if_neg h1, if_pos h2]
+    · have : i = j := by omega
+      subst this; rfl
+
+/-- above the diagonal the expansion holds the file's numbers in row-major order -/
+theorem entry_fullOfTriu_upper (zero : A) (n : Nat) (arr : List A) (i j : Nat) (hij : i ≤ j) (hj : j < n) :
+    entry zero (fullOfTriu zero n arr) i j = arr.getD ((triuPairs n).idxOf (i, j)) zero := by
+  rw [entry_fullOfTriu zero n arr i j (by omega) hj]
+  unfold fullAt upperAt
+  have hm : (triuPairs n).contains (i, j) = true := by simpa using (mem_triuPairs n i j).mpr ⟨hij, hj⟩
+  by_cases h : j < i
+  · omega
+  · rw [if_neg h, if_pos hm]
+
+theorem expandTriu_exact (zero : A) (n : Nat) (arr : List A) (h : arr.length = (triuPairs n).length) :
+    expandTriu zero n arr = .ok (fullOfTriu zero n arr) := by
+  simp [expandTriu, h]
+
 end GraphSlam.Props.C13
